@@ -3,7 +3,7 @@ SPECIFICATION Spec
 CONSTANTS
   Project = {"/a", "@2/a", "@2/b"}
   External = {"http://other.org/x"}
-  Codes = {200, 301}
+  Codes = {200, 301, 303}
   MaxHopsSet = {3}
   Methods = {"GET"}
 INVARIANTS HopBound LoopIffRepeat ChainFollowsGraph StopReason Emit
